@@ -271,6 +271,20 @@ func (w *Worker) diagnoseHang(c Case) Result {
 		return out
 	}
 	g1, g2 = filter(g1), filter(g2)
+	// an operation on a nil channel (or an empty select) never completes, whatever the other goroutines do
+	for _, g := range g2 {
+		st := strings.Split(g.State, ",")[0]
+		if (st == "chan send (nil chan)" || st == "chan receive (nil chan)" || st == "select (no cases)") && waitsInOwnCode(g) {
+			site := ""
+			for _, f := range g.Frames {
+				if strings.HasPrefix(f, gripPkg) {
+					site = strings.TrimPrefix(f, gripPkg)
+					break
+				}
+			}
+			return ViolatedR("deadlock:nil-channel", fmt.Sprintf("certified hang: a goroutine is blocked for ever in %s [%s]; the case did not finish within %s", site, st, w.Prop.CaseTimeout), map[string]interface{}{"blocked_site": site, "state": st})
+		}
+	}
 	allBlocked := len(g2) > 0
 	for _, g := range g2 {
 		if !(blockedState(g.State) && waitsInOwnCode(g)) && !w.peerWait(g) {
